@@ -631,6 +631,8 @@ void HistSim::checkAll(const Op& op, size_t ix, bool relaxedDoc, int relaxedIdx)
       // capacity limit the same holds and identifiers / counters must not have wrapped (C19)
       const char* shapeCls = !leaks ? "C04:shape" : opt.mode == "limit" ? "C19:shape-at-limit" : "C05:shape-after-failure";
       auto rep = verif::Inspector::checkShape(*ds.doc, shapeCls, leaks);
+      if (!rep.refUnderflow.empty())
+        violate(opt.mode == "limit" ? "C19:refcount-wrapped" : "C06:string-refcount", rep.refUnderflow);
       if (!leaks) {
         if (rep.leaked)
           violate("C06:slot-leak", std::to_string(rep.leaked) +
